@@ -322,6 +322,19 @@ def check_r09a(repo, rep, uni, eff, scope, prefix=''):
                 if fi.cls is not None and all(
                         m.cls is fi.cls for m in eff.self_mut[f.attr]):
                     continue   # a class working on instances of itself
+                top = fi
+                while top.parent_func is not None:
+                    top = top.parent_func
+                if all(m.cls is not None and model.enclosing(
+                        m.cls.node, (ast.FunctionDef,
+                                     ast.AsyncFunctionDef)) is not None and
+                       any(model.enclosing(m.cls.node, (
+                           ast.FunctionDef, ast.AsyncFunctionDef)) is x
+                           for x in ast.walk(top.node))
+                       for m in eff.self_mut[f.attr]):
+                    # the only classes with such a method are defined
+                    # inside this very call: their instances are call-local
+                    continue
                 bad = data_tags(env.ev(f.value).tags)
                 nsites += 1
                 if bad:
